@@ -90,13 +90,22 @@ def run(ctx, model_ok, deep=False):
             for rep in range(1 if tier == "quick" else 2):
                 if len([v for v in ctx.violations if not v["no_input"]]) >= 4:
                     continue        # enough concrete failures to report; do not sit through more hangs
-                r = run_bounded([exe, jf, str(n), str(rounds), prov, str(ctx.seed + rep), str(cold)], env, 60 if ctx.tier == "quick" else 1500)
+                run_env = env
+                first_use = (n + rep) % 4 != 2 or tier != "quick"
+                if first_use and not (tier != "quick" and rep == 1):
+                    # the reference results come from another process: the threads make this process's first calls
+                    ref = os.path.join(ctx.scratch, "threads_%s_%d.ref" % (prov, n))
+                    w = run_bounded([exe, jf, str(n), str(rounds), prov, str(ctx.seed + rep), str(cold)], dict(env, THREADS_REF=ref, THREADS_REF_WRITE="1"), 120)
+                    if w.returncode == 0 and os.path.exists(ref):
+                        run_env = dict(env, THREADS_REF=ref)
+                r = run_bounded([exe, jf, str(n), str(rounds), prov, str(ctx.seed + rep), str(cold)], run_env, 60 if ctx.tier == "quick" else 1500)
                 ev += 1
                 outs.add((prov, n, r.returncode))
                 line = r.stdout.strip().splitlines()[-1] if r.stdout.strip() else ""
                 if len(samples) < 4:
                     samples.append({"provider": prov, "threads": n, "rounds": rounds, "exit": r.returncode, "out": line})
-                replay_lines = ["# harness/threads.c <jwks with %d keys> %d %d %s %d %d  (ThreadSanitizer build)" % (len(items) // 2, n, rounds, prov, ctx.seed + rep, cold)]
+                replay_lines = ["# harness/threads.c <jwks with %d keys> %d %d %s %d %d  (ThreadSanitizer build%s)" % (
+                    len(items) // 2, n, rounds, prov, ctx.seed + rep, cold, "; reference results from another process, THREADS_REF" if run_env is not env else "")]
                 finished = line.startswith("threads=")
                 if not finished:
                     # the harness must always reach its last line; a crash (also a TSan DEADLYSIGNAL) is a result
